@@ -162,6 +162,19 @@ def analyse(facts, with_socket=False, extra_setup=None):
                 continue
             if ty:
                 st.mem[root] = Int(bv.seq_bv("h_" + nm, ty[0]))
+                info.setdefault("places", {})[nm] = (l, ())
+                info.setdefault("havoc_vars", {})[nm] = st.mem[root].bits
+            elif isinstance(cur, Agg) and cur.fields and all(isinstance(x, Int) for x in cur.fields):
+                # counters kept together in a small struct: each integer field is generalised under its field name
+                tt_ = ip_.types[body["locals"][l]["ty"]]
+                fdefs = tt_.get("fields") or ((tt_.get("variants") or [{}])[0].get("fields") or [])
+                newf = []
+                for i_, x in enumerate(cur.fields):
+                    fn_ = fdefs[i_]["n"] if i_ < len(fdefs) and isinstance(fdefs[i_], dict) and fdefs[i_].get("n") else "%s.%d" % (nm, i_)
+                    newf.append(Int(bv.seq_bv("h_" + fn_, len(x.bits))))
+                    info.setdefault("places", {})[fn_] = (l, (i_,))
+                    info.setdefault("havoc_vars", {})[fn_] = newf[-1].bits
+                st.mem[root] = Agg(newf)
             elif cur is not None:
                 st.mem[root] = Opaque("havoc") if not is_tainted(cur) else cur
             info["havocked_locals"] += 1
@@ -202,7 +215,31 @@ def run(ctx, res):
     if not okp:
         res.finding("prologue|pc-from-er2", "run does not start execution at the address held in ER2")
     res.ob(not any(e[0] in ("fetch", "exec") for e in pro["eff"]))
-    sync = bv.seq_bv("h_sync_count", 64)
+    # the sync counter: the loop-carried 64-bit integer (local or field of a counter struct) named sync_count, else - by role - the
+    # only generalised counter the decision to send a sync message depends on; not identified = the sync rules are not decidable
+    hv = info.get("havoc_vars", {})
+    sync_name = "sync_count" if "sync_count" in hv and len(hv["sync_count"]) == 64 else None
+    if sync_name is None:
+        S_ = 0
+        for o_ in outs:
+            if any(e[0] == "sync" for e in o_.state.eff) and not any(t_ in o_.state.tags for t_ in ("opaque-assert", "unknown-callee", "opaque-switch")):
+                S_ = Mx.OR(S_, o_.state.pc)
+        dep = set()
+        sup_ = set(Mx.support(S_)) if S_ not in (0, 1) else set()
+        for nm_, bits_ in hv.items():
+            ranks_ = set(Mx.var[b_] for b_ in bits_ if b_ > 1)
+            if len(bits_) == 64 and ranks_ & sup_:
+                # does sending the message restrict this counter?  (a counter that is merely tested later on the same path does not)
+                if Mx.exists(S_, sup_ - ranks_) != 1:
+                    dep.add(nm_)
+        if len(dep) == 1:
+            sync_name = dep.pop()
+    if sync_name is None:
+        res.errors.append("the loop-carried counter that triggers the sync message was not identified (no 64-bit counter named sync_count, %d candidates by role): the sync rules are not decidable" % len(hv))
+        return
+    info["places"]["sync_count"] = info["places"][sync_name]
+    res.inventory["sync_counter"] = sync_name
+    sync = tuple(hv[sync_name])
     paused = bv.seq_bv("h_is_paused", 1)[0]
     charge = bv.seq_bv("charge", 8)
     sum0 = bv.seq_bv("sum0", 64)
@@ -247,7 +284,11 @@ def run(ctx, res):
             for j, x in enumerate(e[1:]):
                 vis["%s.arg%d" % (e[0], j)] = x
         if o.kind == "stop":
-            vis["sync_count"] = st.mem.get(("f", st.frames[0].fid, names.get("sync_count", -1)))
+            pl_ = info.get("places", {}).get("sync_count")
+            v_ = st.mem.get(("f", st.frames[0].fid, pl_[0])) if pl_ else st.mem.get(("f", st.frames[0].fid, names.get("sync_count", -1)))
+            for i_ in (pl_[1] if pl_ else ()):
+                v_ = v_.fields[i_] if isinstance(v_, Agg) and i_ < len(v_.fields) else None
+            vis["sync_count"] = v_
         for nm, v in vis.items():
             bad = is_tainted(v)
             res.ob(not bad)
